@@ -289,13 +289,13 @@ def const(node, env=None):
         return v
     if isinstance(node, ast.IfExp):
         return const(node.body, env) if const(node.test, env) else const(node.orelse, env)
-    if isinstance(node, (ast.GeneratorExp, ast.ListComp, ast.SetComp)):
+    if isinstance(node, (ast.GeneratorExp, ast.ListComp, ast.SetComp, ast.DictComp)):
         # comprehension over foldable iterables (finite enumeration by the checker)
         out = []
 
         def rec(i, e):
             if i == len(node.generators):
-                out.append(const(node.elt, e))
+                out.append((const(node.key, e), const(node.value, e)) if isinstance(node, ast.DictComp) else const(node.elt, e))
                 return
             g = node.generators[i]
             if g.is_async:
@@ -311,7 +311,9 @@ def const(node, env=None):
                     raise NotConst(norm(g.target))
                 if all(const(c, e2) for c in g.ifs):
                     rec(i + 1, e2)
-        rec(0, dict(env))
+        rec(0, dict(env or {}))
+        if isinstance(node, ast.DictComp):
+            return dict(out)
         return set(out) if isinstance(node, ast.SetComp) else out
     if isinstance(node, (ast.Tuple, ast.List)):
         v = [const(e, env) for e in node.elts]
@@ -376,9 +378,9 @@ def const(node, env=None):
         return getattr(v, node.func.attr)(*[a.value for a in node.args])     # str.encode / bytes.decode only
     if isinstance(node, ast.Call) and isinstance(node.func, ast.Attribute) and not node.keywords and node.func.attr in (
             'intersection', 'difference', 'union', 'symmetric_difference', 'isdisjoint', 'issubset', 'issuperset', 'count',
-            'bit_length', 'startswith', 'endswith', 'index', 'find'):
+            'bit_length', 'startswith', 'endswith', 'index', 'find', 'capitalize', 'upper', 'lower', 'get', 'keys', 'values', 'items'):
         v = const(node.func.value, env)
-        if isinstance(v, (set, frozenset, bytes, bytearray, tuple, list, str, int, range)):
+        if isinstance(v, (set, frozenset, bytes, bytearray, tuple, list, str, int, range, dict)):
             return getattr(v, node.func.attr)(*[const(a, env) for a in node.args])     # pure methods of builtin values only
     if isinstance(node, ast.Call) and isinstance(node.func, ast.Attribute) and node.func.attr == 'format':
         v = const(node.func.value, env)
